@@ -35,7 +35,7 @@ def gen_wrap_consts(repo):
 
     isw = int(_need(re.search(r"pub const INLINE_SYMBOL_WIDTH_1: usize = (\d+);", cfg), "INLINE_SYMBOL_WIDTH_1").group(1))
     spaces = _need(re.search(r'const SPACES: &str = "( *)";', wr), "SPACES literal").group(1)
-    permille_mul = int(_need(re.search(r"\(curr_line\.text_len\(\) \* (\d+)\) / line_width", wr),
+    permille_mul = int(_need(re.search(r"let current_permille = \([\w.()]+ \* (\d+)\) / [\w.()]+;", wr),
                              "current_permille expression").group(1))
     percent_mul = _need(re.search(r"\(percent \* (\d+)\.0\)\.round\(\) as usize", wr), "percent to permille").group(1)
     # `--wrap-max-lines N` is stored as N + 1, unlimited = 0
@@ -74,8 +74,9 @@ def gen_wrap_consts(repo):
         r"stack\.push\(\(style, text\)\);\s*break Stop::LineLimit;\s*\}", body))
     sc_plain = "let next_line = if width_left == 0 {" in body
     sc_guarded = "let next_line = if width_left == 0 && first_width > 0 {" in body
-    if sc_plain == sc_guarded:
-        raise SystemExit("extract: wrap: cannot tell how the `width_left == 0` shortcut of wrap_line is handled")
+    # an unknown shape of this statement counts as "repair not present": the correspondence
+    # check then decides whether the behaviour still is the pinned one
+    sc_guarded = sc_guarded and not sc_plain
     zwfit = bool(re.search(r"Some\(_\) if stack\.iter\(\)\.all\(\|\(_, text\)\| text\.width\(\) == 0\) => \{\s*"
                            r"curr_line\.push_and_set_len\(\(style, text\), new_len\);\s*false\s*\}", body))
     m = _need(re.search(r"fn truncate_str_impl<.*?\n}\n", ansi, re.S), "truncate_str_impl body")
